@@ -68,7 +68,14 @@ func zzStubSetAutoFFC2(on bool) error {
 
 func ZZ_C11_start() {
 	th1, th2 := uint16(zzParam("th1")), uint16(zzParam("th2"))
-	conf := &Config{DeviceName: "zzdevice", DeviceID: 7, OutputDir: zzOutDir(), MinDiskSpace: 1,
+	// device id and location are arbitrary (id 0 = "not set": the name must still be carried)
+	devid := zzInt("devid", 0)
+	zzAssume(devid >= 0 && devid <= 1<<30)
+	lat, lon, alt, acc := zzF32bits("loc", 0), zzF32bits("loc", 1), zzF32bits("loc", 2), zzF32bits("loc", 3)
+	zzAssume(lat == lat && lon == lon && alt == alt && acc == acc) // not NaN
+	locT := zzTimeNs(1600000000 * 1000000000)
+	conf := &Config{DeviceName: "zzdevice", DeviceID: devid, OutputDir: zzOutDir(), MinDiskSpace: 1,
+		Location: goconfig.Location{Timestamp: locT, Latitude: lat, Longitude: lon, Altitude: alt, Accuracy: acc},
 		Recorder: recorder.RecorderConfig{MinSecs: 2, MaxSecs: 7, PreviewSecs: 3, Window: window.Window{NoWindow: true}},
 		Motion:   goconfig.ThermalMotion{TempThresh: 2900, DeltaThresh: 50, CountThresh: 3, FrameCompareGap: 2, TriggerFrames: 1},
 	}
@@ -87,6 +94,7 @@ func ZZ_C11_start() {
 	zzFailNew, zzFailHdr = zzBool("failNew", 0), zzBool("failHdr", 0)
 	zzReach("recorder built")
 
+	origName := fr.header.DeviceName
 	if !zzSymbolic() {
 		// native fault injection for the first start: an output directory that does
 		// not exist makes file creation fail; an over-long device name makes the
@@ -100,7 +108,7 @@ func ZZ_C11_start() {
 	err1 := fr.StartRecording(bg1, th1)
 	if !zzSymbolic() {
 		fr.outputDir = conf.OutputDir
-		fr.header.DeviceName = conf.DeviceName
+		fr.header.DeviceName = origName
 	}
 	if zzFailNew || zzFailHdr {
 		zzReach("first start fails")
@@ -124,7 +132,8 @@ func ZZ_C11_start() {
 		h := zzHdrs[n0]
 		zzAssert(h.MotionConfig == base+zzThreshLine(th2), "C11: header carries the motion configuration plus exactly this trigger's threshold")
 		zzAssert(h.BackgroundFrame == bg2, "C11/C15: header carries the background frame in force at this trigger")
-		zzAssert(h.DeviceName == "zzdevice" && h.DeviceID == 7 && h.PreviewSecs == 3 && h.FPS == 5 && h.Brand == "flir" && h.Model == "boson" && h.CameraSerial == 4242 && h.Firmware == "1.2.3", "C11: header carries device and camera description")
+		zzAssert(h.Latitude == lat && h.Longitude == lon && h.Altitude == alt && h.Accuracy == acc && h.LocTimestamp.Equal(locT), "C11: header carries the configured location")
+		zzAssert(h.DeviceName == "zzdevice" && h.DeviceID == devid && h.PreviewSecs == 3 && h.FPS == 5 && h.Brand == "flir" && h.Model == "boson" && h.CameraSerial == 4242 && h.Firmware == "1.2.3", "C11: header carries device and camera description")
 		zzAssert(zzLastCam == cptvframe.CameraSpec(cam), "C11: file written for the connected camera's resolution")
 		zzAssert(fr.header.BackgroundFrame == nil, "C11: the background frame is not kept after the header is written")
 	} else {
@@ -144,7 +153,9 @@ func ZZ_C11_start() {
 			panic(err)
 		}
 		zzAssert(f.Pix[0][0] == 2222, "C11/C15: header carries the background frame in force at this trigger")
-		zzAssert(rd.DeviceName() == "zzdevice" && rd.DeviceID() == 7 && rd.PreviewSecs() == 3 && rd.FPS() == 5 && rd.BrandName() == "flir" && rd.ModelName() == "boson" && rd.SerialNumber() == 4242 && rd.FirmwareVersion() == "1.2.3", "C11: header carries device and camera description")
+		// (go-cptv's writer omits a negative altitude; that is the library's encoding, not this repository's)
+		zzAssert(rd.Latitude() == lat && rd.Longitude() == lon && (rd.Altitude() == alt || alt < 0) && rd.Accuracy() == acc && rd.LocTimestamp().Equal(locT), "C11: header carries the configured location")
+		zzAssert(rd.DeviceName() == "zzdevice" && rd.DeviceID() == devid && rd.PreviewSecs() == 3 && rd.FPS() == 5 && rd.BrandName() == "flir" && rd.ModelName() == "boson" && rd.SerialNumber() == 4242 && rd.FirmwareVersion() == "1.2.3", "C11: header carries device and camera description")
 		zzAssert(rd.ResX() == 2 && rd.ResY() == 2, "C11: file written for the connected camera's resolution")
 	}
 }
